@@ -13,6 +13,7 @@ def table : List ModelEntries :=
   , Entries.cancellable
   , Entries.detachoncancel
   , Entries.canary
+  , Entries.stoponrequest
   ]
 
 def lookup (m c : String) : Option Entry :=
